@@ -301,7 +301,7 @@ fn c09_t_map_all_headers() {
 #[kani::proof]
 #[kani::unwind(8)]
 #[kani::stub(alloc::fmt::format, stub_format)]
-fn c09_t_map_selected_reversed() {
+fn c09_x_map_selected_reversed() {
     map_case(1)
 }
 
@@ -387,19 +387,19 @@ fn header_selection_case(sel: u8) {
 #[kani::proof]
 #[kani::unwind(8)]
 #[kani::stub(alloc::fmt::format, stub_format)]
-fn c09_t_header_selection_ab() {
+fn c09_x_header_selection_ab() {
     header_selection_case(0)
 }
 #[kani::proof]
 #[kani::unwind(8)]
 #[kani::stub(alloc::fmt::format, stub_format)]
-fn c09_t_header_selection_ba() {
+fn c09_x_header_selection_ba() {
     header_selection_case(1)
 }
 #[kani::proof]
 #[kani::unwind(8)]
 #[kani::stub(alloc::fmt::format, stub_format)]
-fn c09_t_header_selection_missing() {
+fn c09_x_header_selection_missing() {
     header_selection_case(2)
 }
 
